@@ -121,7 +121,7 @@ func clip(s string) string {
 // failure keys: a different defect gets a different key.
 func sinkFamily(src string) string {
 	var f []string
-	for _, n := range []string{"stable-sort", "append!", "append-bytes!", "assoc!", "dissoc!", "elpspath:?set!", "elpspath:?del!", "elpspath:?nil!",
+	for _, n := range []string{"unquote-splicing", "stable-sort", "append!", "append-bytes!", "assoc!", "dissoc!", "elpspath:?set!", "elpspath:?del!", "elpspath:?nil!",
 		"append 'vector", "slice 'vector", "macroexpand", "insert-sorted", "insert-index", "s:validate"} {
 		if strings.Contains(src, "("+n+" ") {
 			f = append(f, strings.ReplaceAll(n, " ", "-"))
